@@ -8,6 +8,10 @@ package planner
 // differs from the source's own.
 //@ func asOfUntilFor
 //@   let res = source.GetResolution()
+//@   let aoff = query.AsOfOffset
+//@   let uoff = query.UntilOffset
+//@   let qasof = abs(query.AsOf)
+//@   let quntil = abs(query.Until)
 //@   let wantAsOf = query.AsOfOffset != 0 ? abs(now) + query.AsOfOffset : abs(query.AsOf)
 //@   let wantUntil = query.UntilOffset != 0 ? abs(now) + query.UntilOffset : abs(query.Until)
 //@   requires query != nil && source != nil && res > 0
